@@ -109,10 +109,27 @@ plotgen.EXTRA_MODES = getattr(plotgen, "EXTRA_MODES", {})
 plotgen.EXTRA_MODES["thermo"] = thermo_payload
 
 
-def cantera_expected(arr, names, recipe, species=None, reactions=None, pressure=1.0):
+_UL = {}
+
+
+def mech_of(ctx, spec):
+    """the mechanism file of a case: the shipped one, or (spec["unity_lewis"]) a copy of it whose phase declares the
+    unity-Lewis-number transport model instead of the mixture-averaged one"""
+    if not spec.get("unity_lewis"):
+        return MECH
+    if "path" not in _UL or not os.path.exists(_UL["path"]):
+        d = ctx.newdir("c11mech_"); os.makedirs(d)
+        _UL["path"] = os.path.join(d, "drm19_unity_lewis.yaml")
+        text = open(MECH).read()
+        assert "transport: mixture-averaged" in text
+        open(_UL["path"], "w").write(text.replace("transport: mixture-averaged", "transport: unity-Lewis-number"))
+    return _UL["path"]
+
+
+def cantera_expected(arr, names, recipe, species=None, reactions=None, pressure=1.0, mech=None):
     """independent per-cell evaluation (not through SolutionArray)"""
     import cantera as ct
-    gas = ct.Solution(MECH)
+    gas = ct.Solution(mech or MECH)
     P = pressure * ct.one_atm
     it = names["temp"]
     iy = [names[f"Y({s})"] for s in SPECIES]
@@ -199,14 +216,14 @@ def run_case(ctx, rep, spec, recipe, kept, serial, model, start=None, species=No
     elif recipe == "rec3":
         rp = os.path.join(ctx.scratch, f"rec3_{ctx._n}.py"); open(rp, "w").write(REC3)
         rec, new_names = rp, ["cpmass"]
-        kw = dict(mech=MECH, pressure=pressure)
-        fn = lambda arr: cantera_expected(arr, names, "cpmass", pressure=pressure)
+        kw = dict(mech=mech_of(ctx, spec), pressure=pressure)
+        fn = lambda arr: cantera_expected(arr, names, "cpmass", pressure=pressure, mech=mech_of(ctx, spec))
     else:
         rec = recipe
-        kw = dict(mech=MECH, pressure=pressure, species=species, reactions=reactions)
+        kw = dict(mech=mech_of(ctx, spec), pressure=pressure, species=species, reactions=reactions)
         prefix = {"HRR": "HeatRelease", "ENT": "Enthalpy", "SRi": "IRm", "RRi": "R", "SDi": "DI"}[recipe]
         new_names = [f"{prefix}({s})" for s in species] if species else ([f"{prefix}{r}" for r in reactions] if reactions else [prefix])
-        fn = lambda arr: cantera_expected(arr, names, recipe, species, reactions, pressure=pressure)
+        fn = lambda arr: cantera_expected(arr, names, recipe, species, reactions, pressure=pressure, mech=mech_of(ctx, spec))
     try:
         with alarm(300), quiet(), pools.controlled(start=start):
             Chef(plotfile=path, recipe=rec, outfile=out, kept_fields=kept, serial=serial, **kw).cook()
@@ -329,6 +346,8 @@ def run(ctx, rep, model=True):
         spec = species_spec(ctx.rng, nlev=[1, 2][i % 2])
         if i % 4 == 2:
             spec["data"]["nearly_uniform"] = True; rep.count("nearly-uniform-thermochemical-state")
+        if combos[i % len(combos)][0] == "SDi":
+            spec["unity_lewis"] = True; rep.count("mechanism-declaring-unity-Lewis-transport")
         recipe, kept, sp, rx = combos[i % len(combos)]
         run_case(ctx, rep, spec, recipe, kept, serial=(i % 2 == 0), model=model, species=sp, reactions=rx,
                  start=[None, pools.order_reversed][i % 2], pressure=[1.0, 3.0, 0.5, 1.0, 2.0][i % 5])
